@@ -98,8 +98,12 @@ func main() {
 
 	switch prop {
 	case "C06":
-		res.Rule = "rounds of 2..5 concurrent calls and subscriptions on one connection plus a call on a second connection; a random subset is cancelled at one of four instants (before send, after send, racing the response, after the subscription is established); a probe call orders the cancel frames; cancelled handlers must see the cancellation, all others must stay live; the server connection's hook trace is replayed through Jrpc.Cancel; plus HTTP abort; distinct = (instant, subset)"
+		res.Rule = "rounds of 2..5 concurrent calls and subscriptions on one connection plus a call on a second connection; a random subset is cancelled at one of four instants (before send, after send, racing the response, after the subscription is established); a probe call orders the cancel frames; cancelled handlers must see the cancellation, all others must stay live; the server connection's hook trace is replayed through Jrpc.Cancel; plus HTTP abort; plus a reverse call on a reconnected client cancelled after a handler of the previous connection (same request id) returned; distinct = (instant, subset)"
 		err = cancel.Cancellation(d, res, *seed, thorough)
+		if err == nil {
+			// cancellation of a reverse call on a reconnected client while a handler of the previous connection returns
+			err = c16.StaleCancel(d, res, *seed, "rst", 95000)
+		}
 	case "C15":
 		res.Rule = "end causes {graceful close, FIN, RST, server-side context cancel} x handler reaction time {0, 15 ms} with five handlers in progress (unary, 300 kB response, stream, notification, reverse-calling), plus the reader-hand-off schedule; every captured context must be cancelled and no goroutine labelled for the dead connection may remain; distinct = (cause, reaction, gate)"
 		err = cancel.ConnectionEnd(d, res, *seed, thorough)
@@ -229,8 +233,13 @@ func main() {
 		res.Rule = "(ping, timeout) pairs satisfying ping < timeout/2 x the server's own ping interval {library default 5 s, disabled, same as the client's}: a call lasting 3 timeouts, an idle period of 2 timeouts, short calls — exactly one connection may be accepted; and silent-peer runs (blackhole while idle / during a call): the pending call must fail with the typed connection error and a redial must start within 4 timeouts + 100 ms; the timed hook trace (activity, renewals, read failures) is replayed through the model's acceptor; distinct = (pair, server ping | when)"
 		err = c17.Run(d, res, *seed, thorough)
 	case "C19":
-		res.Rule = "exhaustive: 10 default sets x 10 caller sets x {attached, not} x 3 required permissions x 2 method shapes through the real PermissionedProxy, and 14 Authorization header forms x 6 token query forms through the real auth.Handler; every case is distinct and non-trivial (a permission decision is taken)"
+		res.Rule = "exhaustive: 10 default sets x 10 caller sets x {attached, not} x 3 required permissions x 2 method shapes through the real PermissionedProxy, and 14 Authorization header forms x 6 token query forms through the real auth.Handler; every case is distinct and non-trivial (a permission decision is taken); plus end to end: auth.Handler in front of an RPC server with a PermissionedProxy API over {http, ws, ws with a reverse client} x 3 default sets x 3 orders of six callers (token holders and anonymous) whose permission slices share one backing array"
 		err = c19.Run(d, res)
+		if err == nil {
+			res.Exhaustive = false
+			err = c19.RunE2E(d, res)
+			res.Exhaustive = err == nil
+		}
 	case "C20":
 		res.Rule = "lengths {0,1,2,4095,4096,4097,8192,65537,1MiB (+5MiB, 511..513, 33333 thorough)} x 7 handler read patterns (ReadAll, byte-at-a-time, read past EOF, close after EOF, early close, double close + read, odd chunks) x arrival order {natural, decoder first, upload first} x {ws, http} x 1..8 concurrent calls with different contents; every read/close is traced and replayed through the model; every case is non-trivial"
 		err = c20.Run(d, res, *seed, thorough)
